@@ -189,8 +189,16 @@ func vxH12Bound(m int, dotu bool, maxWrite int) {
 	}
 	// reply buffers from before the negotiation: the Rversion buffer is one already; a client may have had more
 	// requests answered before it negotiated
-	for i := vxChoose("recycled", 3); i > 0; i-- {
-		conn.rchan <- NewFcall(vxH12M0)
+	switch nrec := vxChoose("recycled", 4); nrec {
+	case 3:
+		// no recycled buffer is available (other requests in flight hold them): the reply buffer is allocated afresh
+		for len(conn.rchan) > 0 {
+			<-conn.rchan
+		}
+	default:
+		for i := nrec; i > 0; i-- {
+			conn.rchan <- NewFcall(vxH12M0)
+		}
 	}
 	// a stat whose reply fills the old msize exactly: 58 bytes (+14 in .u) and the name
 	nlen := vxH12M0 - 58
